@@ -18,7 +18,7 @@
 (* Verdicts are total: exactly one line per case, naming every failed      *)
 (* clause.                                                                 *)
 (***************************************************************************)
-EXTENDS KafkaCodec, Json, IOUtils, TLCExt
+EXTENDS TraceIO, Json, IOUtils, TLCExt
 
 Data == JsonDeserialize(IOEnv.KIO_TRACE_FILE)
 Schemas == Data.schemas
@@ -37,6 +37,7 @@ vars == <<ci, phase, l, exp, wpos, msglen, rpos, fails>>
 
 C == Cases[ci]
 S == Schemas[C.sid]
+Value == ExpandV(C.value)        \* the abstract value of the current case
 
 Init == /\ ci = 1 /\ phase = "load" /\ l = 1 /\ exp = <<>> /\ wpos = 0
         /\ msglen = 0 /\ rpos = 0 /\ fails = {}
@@ -46,16 +47,16 @@ Load ==
   /\ IF ci > N THEN /\ phase' = "done"
                     /\ UNCHANGED <<ci, l, exp, wpos, msglen, rpos, fails>>
      ELSE IF C.mode = "wr" THEN
-          /\ exp' = Enc(S, C.value)
+          /\ exp' = Enc(S, Value)
           /\ phase' = "w" /\ l' = 1 /\ wpos' = 0 /\ rpos' = 0 /\ msglen' = 0
-          /\ fails' = IF WellTyped(S, C.value) THEN {} ELSE {"harness_value_not_well_typed"}
+          /\ fails' = IF WellTyped(S, Value) THEN {} ELSE {"harness_value_not_well_typed"}
           /\ UNCHANGED ci
      ELSE \* "rw"
-          LET e == EncStructV(S, C.value, C.var) IN
+          LET e == EncStructV(S, Value, C.var) IN
           /\ exp' = e
           /\ phase' = "r" /\ l' = 1 /\ wpos' = 0 /\ rpos' = 0 /\ msglen' = Len(e)
-          /\ fails' = (IF C.input = e THEN {} ELSE {"harness_input_mismatch"})
-                      \cup (IF WellTyped(S, C.value) THEN {} ELSE {"harness_value_not_well_typed"})
+          /\ fails' = (IF ExpandRuns(C.input) = e THEN {} ELSE {"harness_input_mismatch"})
+                      \cup (IF WellTyped(S, Value) THEN {} ELSE {"harness_value_not_well_typed"})
           /\ UNCHANGED ci
 
 \* ---- encoder machine: one step per sink.write(chunk) --------------------
@@ -70,9 +71,8 @@ StepW ==
         ELSE
           /\ wpos' = wpos + e.n
           /\ fails' = fails \cup
-               (IF /\ e.n = Len(e.d)
-                   /\ wpos + e.n <= Len(exp)
-                   /\ SubSeq(exp, wpos + 1, wpos + e.n) = e.d
+               (IF /\ wpos + e.n <= Len(exp)
+                   /\ SubSeq(exp, wpos + 1, wpos + e.n) = ExpandRuns(e.d)
                 THEN {} ELSE {"write_diverges_from_wire_format"})
   /\ UNCHANGED <<ci, phase, exp, msglen, rpos>>
 
@@ -108,11 +108,11 @@ EndR ==
   /\ LET f == fails
             \cup (IF C.rout = "ok" THEN {} ELSE {"decoder_raised"})
             \cup (IF C.rout = "ok" /\ rpos # msglen THEN {"inexact_consumption"} ELSE {})
-            \cup (IF C.rout = "ok" /\ C.rval # C.value THEN {"decoded_value_differs"} ELSE {})
+            \cup (IF C.rout = "ok" /\ ExpandV(C.rval) # Value THEN {"decoded_value_differs"} ELSE {})
             \cup (IF C.rout = "ok" /\ ~C.req THEN {"decoded_instance_not_equal"} ELSE {})
      IN /\ fails' = f
         /\ IF C.mode = "rw" /\ C.rout = "ok"
-           THEN /\ phase' = "w" /\ l' = 1 /\ wpos' = 0 /\ exp' = Enc(S, C.value)
+           THEN /\ phase' = "w" /\ l' = 1 /\ wpos' = 0 /\ exp' = Enc(S, Value)
            ELSE /\ phase' = "verdict" /\ UNCHANGED <<l, wpos, exp>>
   /\ UNCHANGED <<ci, msglen, rpos>>
 
